@@ -268,6 +268,7 @@ def concrete_check(op, init, k, v, w, k2, probe):
         raw = list(init)
         siblings = [MultiMapping(raw), QueryParams(raw)]
         m = MutableMultiMapping(raw)
+        siblings += [MutableMultiMapping(m), QueryParams(m)]
         check_views(None, m, list(init), probe)
         pairs, kind = apply(op, m, list(init), k, v, w, k2)
         check_views(None, m, pairs, probe)
@@ -290,6 +291,8 @@ def concrete_check(op, init, k, v, w, k2, probe):
 def run_job(job) -> report.JobResult:
     if job.get("kind") == "roundtrip":
         return job_roundtrip(job)
+    if job.get("kind") == "roundtrip-many":
+        return job_roundtrip_many(job)
     res = report.JobResult.new(job["name"])
     twin = job.get("twin", False)
     op, n = job["op"], job["n"]
@@ -304,6 +307,8 @@ def run_job(job) -> report.JobResult:
         raw = list(init)  # the caller's own pair list: mappings built from it must not share state through it
         siblings = [MultiMapping(raw), QueryParams(raw)] if job.get("siblings", True) else []
         m = MutableMultiMapping(raw)
+        if job.get("siblings", True):
+            siblings += [MutableMultiMapping(m), QueryParams(m)]  # copies made FROM the mapping are independent of it too
         check_views(cur(), m, list(init), SInt(pr))  # constructor establishes the invariant / views
         pairs, kind = apply(op, m, list(init), SInt(kk), SInt(vv), SInt(ww), SInt(k2))
         if twin:
@@ -419,6 +424,37 @@ def job_roundtrip(job) -> report.JobResult:
     return res
 
 
+def job_roundtrip_many(job) -> report.JobResult:
+    """CONCRETE recipe (no symbolic text): query mappings with many pairs, around the 1000-field mark some parsers stop at; the pair count is a
+    fork-decided choice from a list"""
+    res = report.JobResult.new(job["name"])
+    eng = Engine(budget_s=300)
+    COUNTS = [999, 1000, 1001, 5000]
+
+    def fn():
+        n = COUNTS[cur().choose(len(COUNTS), "pairs")]
+        cur().path_notes["pairs"] = n
+        pairs = [(f"k{i % 7}", f"v{i}") for i in range(n)]
+        cp = concrete_roundtrip({"pairs": pairs})
+        if cp is not None:
+            raise Fail("roundtrip-many-pairs", f"{n} pairs: {cp[:120]}")
+        return "ok"
+
+    def on_path(e, r):
+        kind, v = r
+        n = e.path_notes.get("pairs")
+        if kind == "exc":
+            klass, detail = (v.klass, v.detail) if isinstance(v, Fail) else (f"exception:{type(v).__name__}", repr(v))
+            res.violation(f"C17/query-string-roundtrip/{klass.split(':')[0]}", {"pairs": [[f"k{i % 7}", f"v{i}"] for i in range(n or 0)]}, f"{klass} {detail}", True)
+            return
+        res.kind("ok")
+        res["validated"] += 1
+        res.sample({"pairs": n}, limit=1)
+    eng.explore(fn, on_path)
+    res.absorb_engine(eng)
+    return res
+
+
 def concrete_roundtrip(w):
     prev = Engine.cur
     Engine.cur = None
@@ -442,6 +478,7 @@ def jobs(tier: str):
         shapes += [[(2, 2)], [(1, 0), (1, 0), (1, 1)], [(2, 0), (2, 1)], [(1, 3)]]  # at most 5 symbolic characters per job (9 classes each)
     for sh in shapes:
         out.append(dict(name="roundtrip/" + ("+".join(f"k{a}v{b}" for a, b in sh) or "empty"), kind="roundtrip", shape=sh, weight=8 ** sum(a + b for a, b in sh)))
+    out.append(dict(name="roundtrip/many-pairs", kind="roundtrip-many", weight=40))
     out.append(dict(name="twin/roundtrip", kind="roundtrip", shape=[(1, 1)], twin=True))
     core = ("assign", "delete", "setlist1", "poplist", "append")
     for op in OPS:
